@@ -107,24 +107,23 @@ Definition repInReps (id : string) (reps : list string) : bool :=
   | _ => existsb (fun rp => containsb id rp) reps
   end.
 
-(** generateTimelineEntries as the Go code computes it: the relative times are converted to
-    uint64, which matters when the "now" handed in lies before availabilityStartTime (only
-    calcStatusCode does that).  For non-negative relative times this is Timeline.edgeIdx. *)
-Definition edgeIdxU (r : rep) (wraps relMS atoTicks : Z) : Z * Z :=
-  let relT := u64 (Z.quot (relMS * ts r) 1000) in
+(** generateTimelineEntries as the Go code computes it: the relative time (plus the offset, added
+    in milliseconds before the single conversion to media time) is converted to uint64, which
+    matters when the "now" handed in lies before availabilityStartTime (only calcStatusCode does
+    that).  For non-negative relative times this is Timeline.edgeIdx. *)
+Definition edgeIdxU (r : rep) (wraps relMS atoMS : Z) : Z * Z :=
+  let relT := u64 (Z.quot ((relMS + atoMS) * ts r) 1000) in
   let n := nsegs r in
-  let t := u64 (relT + atoTicks) in
-  if t <? en (segAt r 0) then (wraps - 1, n - 1)
+  if relT <? en (segAt r 0) then (wraps - 1, n - 1)
   else
-    let i := firstFinishedIdx (segs r) t in
+    let i := firstFinishedIdx (segs r) relT in
     if i <? 0 then (wraps - 1, n - 1) else (wraps, i).
 
 Definition generateTimelineEntriesU (r : rep) (wt : wrapTimes) (atoMS : Z) : segEntries :=
   let n := nsegs r in
-  let atoT := u64 (Z.quot (atoMS * ts r) 1000) in
-  let '(sw0, si0) := edgeIdxU r (startWraps wt) (startRelMS wt) atoT in
+  let '(sw0, si0) := edgeIdxU r (startWraps wt) (startRelMS wt) atoMS in
   let '(sw, si) := if sw0 <? 0 then (0, 0) else (sw0, si0) in
-  let '(nw, ni) := edgeIdxU r (nowWraps wt) (nowRelMS wt) atoT in
+  let '(nw, ni) := edgeIdxU r (nowWraps wt) (nowRelMS wt) atoMS in
   if nw <? 0 then
     {| se_startNr := -1; se_entries := []; se_lsi_nr := -1; se_lsi_start := 0; se_lsi_dur := 0 |}
   else
